@@ -5,9 +5,13 @@
 
 package redirect
 
-//@ unit setup_sweep props=C11 files=setup.go nilchecks=on nonnil_params=on dispenser_variants=on exclude=`redirect\.redirParse\$1\$1$` filter=`.`
+//@ unit setup_sweep props=C11 files=setup.go nilchecks=on nonnil_params=on dispenser_variants=on filter=`.`
 //@ // Safety sweep of this directive's setup code: index, slice, division, nil-map store, nil dereference, explicit panic,
 //@ // and termination of the loops driven by the token cursor. No functional contract; callees in the dispenser through their contracts.
 //@ use casketfile/contracts_verif.go:dispenser_api
 //@ use @verif/specs/stdlib.spec:stdlib
 //@ use @verif/specs/stdlib.spec:casket_api
+//@ // the scheme callback stored in every rule reads the site's TLS settings when a request is served: the site config
+//@ // captured at setup time and its TLS config exist (GetConfig's contract, casket_api)
+//@ func redirParse$1$1
+//@   requires cfg != nil && cfg.TLS != nil
